@@ -38,6 +38,12 @@ Direct oracles (failing-input search):
     globals per task: each task equals the task alone on fresh objects;
   * edits of the edited-partials stream move the file's mtime backwards as often
     as forwards;
+  * analysis steps (with every helper built on them, sync / async) of templates
+    that include / render / extend a cached template the caller holds with its
+    own globals, followed by renders of every held Template;
+  * ChoiceLoader / CachingChoiceLoader over two delegates with duplicate names:
+    an OSError-family fault at the k-th get_source(_async) of a delegate must
+    fail the call, and every other step equals fresh objects;
   * constructs outside the model (if / case / with / liquid / nested
     render-call-include-extends ...) and ~20 sources that fail to lex or parse at
     several depths, shuffled on two shared Environments: equal to a new
@@ -321,6 +327,10 @@ def val_of_py(x: Any) -> tuple:
 # ---------------------------------------------------------------- the world
 
 
+ANALYSIS_HELPERS = ["variables", "variable_paths", "variable_segments", "global_variables",
+                    "global_variable_paths", "global_variable_segments", "filter_names", "tag_names"]
+
+
 def _bang(v: Any, *a: Any) -> Any:
     return (v if isinstance(v, str) else "") + "!"
 
@@ -516,6 +526,11 @@ class World:
                     return ("bad",)
                 _, t = res
                 a = self._run(lambda: t.analyze(), lambda: t.analyze_async(), is_async)
+                # every helper built on the analysis walks the partial graph again
+                for helper in ANALYSIS_HELPERS:
+                    got = self._run(getattr(t, helper), getattr(t, helper + "_async"), is_async)
+                    if helper == "variables" and sorted(got) != sorted(a.variables):
+                        return ("names", ["<variables() differs from analyze().variables>"])
                 return ("names", sorted(a.variables))
             raise ValueError(op)
         except Exception as e:  # noqa: BLE001
@@ -702,13 +717,15 @@ def _handle(req: tuple) -> Any:
         thorough = req[1]
         hist = list(corpus())
         hist += fault_sweeps(r, 60 if thorough else 8)
-        for _ in range(2500 if thorough else 210):
+        for _ in range(2500 if thorough else 190):
             hist.append(gen_history(r, 10 if thorough else 6))
         return hist
     if req[0] == "rawrender":
         return raw_fresh(*req[1:])
     if req[0] == "trace":
         return [(s["obs"], s["trace"]) for s in run_history(req[1], trace=True, process=True)]
+    if req[0] == "choicefresh":
+        return choice_fresh(*req[1:])
     if req[0] == "concfresh":
         return conc_fresh(*req[1:])
     if req[0] == "fsrender":
@@ -1207,8 +1224,41 @@ def gen_history(r: Any, maxlen: int) -> list[tuple]:
                     cached.append((e, name))
             elif roll < 0.58:
                 do(("qr", gen_prog(r, 0, [], 2, 6), gen_data(r), _fault(r), None, is_async()))
-            elif roll < 0.66 and (alive or cached):
+            elif roll < 0.64 and (alive or cached):
                 do(("an", _pick_handle(r, alive, cached), is_async()))
+                # nothing the analysis loaded may show in a Template the caller already holds
+                for h in [("cached",) + c for c in cached][-3:]:
+                    if r.random() < 0.7:
+                        do(("r", h, gen_data(r), None, None, is_async()))
+            elif roll < 0.72 and env_caching[e] and env_names[e]:
+                # a partial held with its own globals; the (a)sync analysis of ANOTHER template that
+                # includes / renders / extends it; then every held Template rendered
+                part = r.choice(["p2", "p1", "ba", "ch"])
+                o = do(("gt", e, part, [("g", ("s", "mine-" + part))], is_async()))
+                if o[0] == "cached" and (e, part) not in cached:
+                    cached.append((e, part))
+                how = r.random()
+                if how < 0.35 and part in ("ba", "ch"):
+                    user = {"ba": "ch", "ch": "gc"}[part]
+                    o = do(("gt", e, user, gen_globs(r), is_async()))
+                    if o[0] == "cached" and (e, user) not in cached:
+                        cached.append((e, user))
+                    target: tuple = ("cached", e, user)
+                else:
+                    if part in ("ba", "ch") and how < 0.6:
+                        prog = [("Ext", part), ("B", "b", [("T", "o"), ("E", "g")])]
+                    else:
+                        prog = [r.choice([("Inc", part), ("Ren", part)]), ("E", "g"),
+                                ("M", "m", [("Ren", part)]), ("Call", "m", ("L", "t"))]
+                    o = do(("fs", e, prog, gen_globs(r)))
+                    owned.append(e)
+                    if o[0] == "own":
+                        alive.append(len(owned) - 1)
+                    target = ("own", len(owned) - 1)
+                do(("an", target, r.random() < 0.6))
+                for c in cached[-4:]:
+                    if c[0] == e:
+                        do(("r", ("cached",) + c, gen_data(r), None, None, is_async()))
             elif alive or cached:
                 last = [o[1] for o in ops if o[0] == "r"]
                 h = last[-1] if last and r.random() < 0.4 else _pick_handle(r, alive, cached)
@@ -1296,6 +1346,19 @@ def corpus() -> list[list[tuple]]:
                ("r", ("cached", 1, "p1"), dk, None, None, False), ("an", ("own", 0), False),
                ("r", ("cached", 1, "p1"), dk, None, None, True), ("gt", 1, "p1", [], True),
                ("r", ("cached", 1, "p1"), dk, None, None, False)])
+    # analysis (sync / async) of a template that includes / renders / extends a cached template the
+    # caller holds with its own globals: the held object renders the same afterwards
+    for an_async in (False, True):
+        for user in ([("Inc", "p1")], [("Ren", "p1")], [("M", "m", [("Ren", "p1")]), ("Call", "m", ("L", "t"))],
+                     [("Ext", "ba"), ("B", "b", [("T", "o")])]):
+            held = "ba" if user[0][0] == "Ext" else "p1"
+            hs.append([("env", False, True, [], store, [("g", S("E"))]),
+                       ("gt", 1, held, [("g", S("mine")), ("l", S("L"))], an_async),
+                       ("r", ("cached", 1, held), dk, None, None, False),
+                       ("fs", 1, user, []), ("an", ("own", 0), an_async),
+                       ("r", ("cached", 1, held), dk, None, None, an_async),
+                       ("gt", 1, "ch", [], False), ("an", ("cached", 1, "ch"), an_async),
+                       ("r", ("cached", 1, held), dk, None, None, False)])
     # translate blocks, analysis, async get_template
     hs.append([("env", True, True, [], store, []), ("fs", 1, [("Tr", "x"), ("Tr", "l"), ("A", "l", ("V", "x")), ("Tr", "l")], []),
                ("r", ("own", 0), [("x", S("<i>"))], None, None, False), ("r", ("own", 0), [("x", S("<i>"))], None, None, True),
@@ -1651,6 +1714,199 @@ def conc_case(sc: dict[str, Any], task: tuple, obs: tuple) -> tuple[list[tuple],
     return ops, [{"obs": o, "snap": [[], []]} for o in exp]
 
 
+# ---------------------------------------------------------------- choice loaders with failing delegates
+
+FAULT_CLASSES = [OSError, PermissionError, TimeoutError, FileNotFoundError, BlockingIOError, ConnectionResetError]
+
+
+def _faulty_delegate(base: type) -> type:
+    """A delegate loader whose k-th get_source / get_source_async call of a step
+    raises a transient I/O error."""
+
+    class F(base):  # type: ignore[misc,valid-type]
+        calls = 0
+        fail_at: int | None = None
+        fail_with: type = OSError
+        fired = False
+        _inside = False
+
+        def _count(self) -> None:
+            if self._inside:
+                return
+            self.calls += 1
+            if self.fail_at is not None and self.calls == self.fail_at:
+                self.fired = True
+                raise self.fail_with("injected fault: delegate loader I/O")
+
+        def get_source(self, env, template_name, *, context=None, **kwargs):  # type: ignore[no-untyped-def]
+            self._count()
+            return super().get_source(env, template_name, context=context, **kwargs)
+
+        async def get_source_async(self, env, template_name, *, context=None, **kwargs):  # type: ignore[no-untyped-def]
+            self._count()
+            self._inside = True      # BaseLoader.get_source_async delegates to get_source
+            try:
+                return await super().get_source_async(env, template_name, context=context, **kwargs)
+            finally:
+                self._inside = False
+
+    F.__name__ = "Faulty" + base.__name__
+    return F
+
+
+def choice_scenario(r: Any) -> dict[str, Any]:
+    """ChoiceLoader / CachingChoiceLoader over two delegates ([dict, dict] or
+    [file system, dict]) with names present in both (different text) and fault
+    schedules per delegate."""
+    def body(tag: str, names: list[str]) -> list[tuple]:
+        return [("T", f"<{tag}>"), ("E", "g")] + gen_prog(r, 1, names, 0, 2)
+
+    hi: dict[str, list[tuple]] = {}
+    lo: dict[str, list[tuple]] = {}
+    # q: low only; h: high only; p, ba, ch: in both, with different text
+    lo["q"] = body("q.lo", [])
+    hi["h"] = body("h.hi", [])
+    for d, tag in ((hi, "hi"), (lo, "lo")):
+        d["p"] = body("p." + tag, []) + [r.choice([("Inc", "q"), ("Ren", "q")])]
+        d["ba"] = [("T", "[")] + body("ba." + tag, []) + [("B", "b", [("T", "b." + tag), ("Inc", "p")]), ("T", "]")]
+        d["ch"] = [("Ext", "ba"), ("B", "b", body("ch." + tag, []) + [r.choice([("Inc", "p"), ("Ren", "h")])])]
+    if r.random() < 0.5:
+        del lo["ch"]
+    tops = {
+        "m1": body("m1", []) + [("Inc", "p"), ("Ren", "h")],
+        "m2": body("m2", []) + [("Ren", "p"), ("M", "m", [("Ren", "q")]), ("Call", "m", ("L", "t")), ("Inc", "ch")],
+    }
+    which = r.random()
+    if which < 0.5:
+        hi.update(tops)
+    else:
+        lo.update(tops)
+    names = sorted(set(hi) | set(lo))
+    gl = {n: ([("g", ("s", "G-" + n))] if r.random() < 0.7 else []) for n in names}
+    data = [("x", ("s", "dx")), ("arr", ("l", ["a", "b", "c"]))]
+    script: list[tuple] = []
+    for _ in range(r.randint(4, 8)):
+        name = r.choice(["m1", "m2", "ch", "ba", "p", "p", "ch"])
+        faults: dict[int, tuple[int, int]] = {}
+        if r.random() < 0.45:
+            faults[0] = (r.choice([1, 1, 2, 3]), r.randrange(len(FAULT_CLASSES)))
+        if r.random() < 0.12:
+            faults[1] = (r.choice([1, 2]), r.randrange(len(FAULT_CLASSES)))
+        kind = r.random()
+        is_async = r.random() < 0.5
+        if kind < 0.55:
+            script.append(("getrender", name, is_async, faults))
+        elif kind < 0.75:
+            prog = [("E", "g"), r.choice([("Inc", name), ("Ren", name)]), ("I", "c")]
+            if name in ("ba", "ch") and r.random() < 0.5:
+                prog = [("Ext", name), ("B", "b", [("T", "own"), ("Inc", "p")])]
+            script.append(("fsrender", prog, is_async, faults))
+        elif kind < 0.87:
+            script.append(("analyze", name, is_async, faults))
+        else:
+            script.append(("rerender", name, is_async, faults))     # a Template object fetched earlier
+        # every faulty step is followed by the same step without fault
+        if faults:
+            script.append(script[-1][:3] + ({},))
+    return {"hi": hi, "lo": lo, "globals": gl, "data": data, "script": script,
+            "caching": r.random() < 0.7, "fs_first": r.random() < 0.4, "auto": r.random() < 0.25}
+
+
+def _choice_eval(env: Any, loop: Any, held: dict[str, Any], st: tuple, sc: dict[str, Any]) -> tuple:
+    kind, what, is_async = st[0], st[1], st[2]
+    d = py_map(sc["data"])
+
+    def run(sync_fn: Any, async_fn: Any) -> Any:
+        return loop.run_until_complete(async_fn()) if is_async else sync_fn()
+
+    try:
+        if kind == "fsrender":
+            t = env.from_string(src_of(what))
+            return ("text", run(lambda: t.render(**d), lambda: t.render_async(**d)))
+        if kind == "rerender" and what in held:
+            t = held[what]
+        else:
+            g = py_map(sc["globals"][what]) or None
+            t = run(lambda: env.get_template(what, globals=g), lambda: env.get_template_async(what, globals=g))
+            held[what] = t
+        if kind == "analyze":
+            a = run(lambda: t.analyze(), lambda: t.analyze_async())
+            return ("names", sorted(a.variables))
+        return ("text", run(lambda: t.render(**d), lambda: t.render_async(**d)))
+    except Exception as e:  # noqa: BLE001
+        return exc_obs(e)
+
+
+def run_choice_scenario(sc: dict[str, Any]) -> list[dict[str, Any]]:
+    import liquid2
+
+    root = _scratch() if sc["fs_first"] else None
+    loop = asyncio.new_event_loop()
+    try:
+        CLOCK.k = 0
+        hi = {n: src_of(p) for n, p in sc["hi"].items()}
+        lo = {n: src_of(p) for n, p in sc["lo"].items()}
+        if root is not None:
+            _write_tree(root, hi, 0)
+            d0 = _faulty_delegate(liquid2.FileSystemLoader)(root)
+        else:
+            d0 = _faulty_delegate(liquid2.DictLoader)(hi)
+        d1 = _faulty_delegate(liquid2.DictLoader)(lo)
+        loader = (liquid2.CachingChoiceLoader([d0, d1]) if sc["caching"] else liquid2.ChoiceLoader([d0, d1]))
+        env = liquid2.Environment(loader=loader, auto_escape=sc["auto"])
+        held: dict[str, Any] = {}
+        out = []
+        for st in sc["script"]:
+            for i, dl in enumerate((d0, d1)):
+                dl.calls, dl.fired = 0, False
+                dl.fail_at, dl.fail_with = None, OSError
+                if i in st[3]:
+                    dl.fail_at, dl.fail_with = st[3][i][0], FAULT_CLASSES[st[3][i][1]]
+            obs = _choice_eval(env, loop, held, st, sc)
+            fired = [i for i, dl in enumerate((d0, d1)) if dl.fired]
+            for dl in (d0, d1):
+                dl.fail_at = None
+            out.append({"step": st, "obs": obs, "fired": fired,
+                        "fault_class": FAULT_CLASSES[st[3][fired[0]][1]].__name__ if fired else None})
+        return out
+    finally:
+        loop.close()
+        if root is not None:
+            shutil.rmtree(root, ignore_errors=True)
+
+
+def choice_fresh(sc: dict[str, Any], st: tuple) -> tuple:
+    """The step, fault-free, on freshly built objects (plain ChoiceLoader over plain DictLoaders)."""
+    import liquid2
+
+    loop = asyncio.new_event_loop()
+    try:
+        CLOCK.k = 0
+        env = liquid2.Environment(loader=liquid2.ChoiceLoader([
+            liquid2.DictLoader({n: src_of(p) for n, p in sc["hi"].items()}),
+            liquid2.DictLoader({n: src_of(p) for n, p in sc["lo"].items()})]), auto_escape=sc["auto"])
+        return _choice_eval(env, loop, {}, (st[0] if st[0] != "rerender" else "getrender", st[1], False, {}), sc)
+    finally:
+        loop.close()
+
+
+def choice_case(sc: dict[str, Any], st: tuple, obs: tuple) -> tuple[list[tuple], list[dict[str, Any]]]:
+    """The model's answer for the fault-free step on fresh objects: the
+    effective loader contents are the low-priority delegate overlaid by the
+    high-priority one."""
+    merged = dict(sc["lo"])
+    merged.update(sc["hi"])
+    ops: list[tuple] = [("env", sc["auto"], False, [], sorted(merged.items()), [])]
+    if st[0] == "fsrender":
+        ops.append(("fs", 1, st[1], []))
+    else:
+        ops.append(("gt", 1, st[1], sc["globals"][st[1]], False))
+    ops.append(("an", ("own", 0), False) if st[0] == "analyze" else ("r", ("own", 0), sc["data"], None, None, False))
+    created = run_history(ops[:2])[1]["obs"]
+    exp = [("unit",), ("own", 0), obs] if created[0] == "own" else [("unit",), created, ("bad",)]
+    return ops, [{"obs": o, "snap": [[], []]} for o in exp]
+
+
 # ---------------------------------------------------------------- constructs outside the model (oracle only)
 
 RAW_PARTIALS = {
@@ -1973,6 +2229,42 @@ def _main(chk: C.Check, pristine: Pristine) -> None:
                 items.append({"case": case, "model": model,
                               "replay": {"concurrent_task": task, "implementation": obs,
                                          "templates": {n: src_of(p) for n, p in sc["store"]}}})
+    # choice loaders whose delegates fail transiently: a faulty load fails and leaves nothing behind
+    n_choice = n_choice_fired = n_choice_dup = 0
+    for _ in range(400 if thorough else 30):
+        sc = choice_scenario(r)
+        for res in run_choice_scenario(sc):
+            st, obs = res["step"], res["obs"]
+            n_choice += 1
+            fr = choice_fresh(sc, st)
+            loader_name = ("CachingChoiceLoader" if sc["caching"] else "ChoiceLoader") + \
+                          ("[FileSystemLoader, DictLoader]" if sc["fs_first"] else "[DictLoader, DictLoader]")
+            replay = {"script": sc["script"], "step": st, "loader": loader_name, "observed": obs, "fresh_fault_free": fr,
+                      "high_priority": {n: src_of(p) for n, p in sc["hi"].items()},
+                      "low_priority": {n: src_of(p) for n, p in sc["lo"].items()},
+                      "how": "harness/c09.py run_choice_scenario / choice_fresh"}
+            if res["fired"]:
+                n_choice_fired += 1
+                want = ("pyexc", res["fault_class"] if res["fault_class"] in PYKINDS else "OtherPyError")
+                if obs != want:
+                    chk.finding("choice-loader:fault-swallowed",
+                                f"{st[0]} {st[1] if st[0] != 'fsrender' else src_of(st[1])!r}: delegate {res['fired']} raised "
+                                f"{res['fault_class']} during the load, the call returned {obs} instead of failing",
+                                replay)
+                continue
+            pr = pristine.call(("choicefresh", sc, st))
+            n_pristine += 1
+            n_choice_dup += st[0] != "fsrender" and st[1] in sc["hi"] and st[1] in sc["lo"]
+            if fr != obs or pr != obs:
+                chk.finding("choice-loader:differs-from-fresh",
+                            f"fault-free {st[0]} {st[1] if st[0] != 'fsrender' else src_of(st[1])!r} through {loader_name} gives "
+                            f"{obs}; freshly built objects give {fr} (pristine process: {pr})", replay)
+            ops_m, exp_m = choice_case(sc, st, obs)
+            case, model = c_case(ops_m, exp_m)
+            items.append({"case": case, "model": model, "replay": {"choice_step": st, "implementation": obs}})
+    dist["choice-loader-steps"] = n_choice
+    dist["choice-loader-steps-with-a-delegate-fault"] = n_choice_fired
+    dist["choice-loader-fault-free-steps-on-duplicate-names"] = n_choice_dup
     dist["concurrent-tasks"] = n_conc
     dist["concurrent-cold-waves-loading-one-name-twice"] = n_conc_collide
     n_raw, n_raw_fail = raw_stream(chk, pristine, r, 8 if thorough else 3)
